@@ -32,10 +32,12 @@ Record store := MkStore {
 
 (* + the snapshot files in storage; [w_lose]: fault injection - the Remove calls of the current process do not
    reach storage (the process will die before its asynchronous cleanup lands), so obsolete files pile up *)
-Record world := MkWorld { w_store : store; w_files : list snapobs; w_lose : bool }.
+(* [w_sps]: the savepoint artifacts in storage (savepoints/<segment>/job.savepoint, one per id, a copy of the job
+   checkpoint file made at publication) *)
+Record world := MkWorld { w_store : store; w_files : list snapobs; w_lose : bool; w_sps : list snapobs }.
 
 Definition new_store : store := MkStore [] None 0.
-Definition init : world := MkWorld new_store [] false.
+Definition init : world := MkWorld new_store [] false [].
 
 (* ---- Go maps string -> bool as association lists with unique keys ---- *)
 Definition mk_flags (l : list N) : list (N * bool) := map (fun x => (x, false)) (nodup N.eq_dec l).
@@ -92,7 +94,7 @@ Definition publish (w : world) (p : pending) : world * pubobs :=
   let obsolete := ids_of (completed st) in
   let files2 := if cleanup && negb (w_lose w) then without obsolete files1 else files1 in
   let st' := MkStore (if superseded then completed st else [s]) None (ckpt_id st) in
-  (MkWorld st' files2 (w_lose w),
+  (MkWorld st' files2 (w_lose w) (if p_sp p then s :: without [sn_id s] (w_sps w) else w_sps w),
    MkPub s (if cleanup then [obsolete] else []) (if cleanup then [[sn_id s]] else []) (p_sp p)).
 
 (* LoadCheckpoint (repaired code): the snapshot file with the greatest id *)
@@ -104,6 +106,11 @@ Fixpoint max_snap (best : option snapobs) (l : list snapobs) : option snapobs :=
       | None => max_snap (Some s) l'
       | Some b => if sn_id b <? sn_id s then max_snap (Some s) l' else max_snap best l'
       end
+  end.
+Fixpoint find_snap (id : N) (l : list snapobs) : option snapobs :=
+  match l with
+  | [] => None
+  | s :: l' => if sn_id s =? id then Some s else find_snap id l'
   end.
 Definition load_store (files : list snapobs) : store :=
   match max_snap None files with
@@ -117,7 +124,9 @@ Inductive action :=
 | AAckOp (cid op pl : N)
 | AAckSr (cid sr : N) (sts : list N)
 | ARestart
-| ALoseRemoves (b : bool).   (* fault injection, not an API call *)
+| ALoseRemoves (b : bool)    (* fault injection, not an API call *)
+| ARestartFrom (id : N)      (* a new Store started with the SavepointURI of savepoint [id] on the same storage *)
+| AAbort.                    (* AbortPendingCheckpoint (the job calls it when it starts a new assembly) *)
 
 Inductive result :=
 | RCreate (err : bool) (id : N)
@@ -127,7 +136,7 @@ Inductive result :=
 | RFault.
 
 Definition with_pending (w : world) (p : option pending) : world :=
-  MkWorld (MkStore (completed (w_store w)) p (ckpt_id (w_store w))) (w_files w) (w_lose w).
+  MkWorld (MkStore (completed (w_store w)) p (ckpt_id (w_store w))) (w_files w) (w_lose w) (w_sps w).
 
 Definition finish_if_complete (w : world) (p : pending) : world * result :=
   if is_complete p then let (w', pub) := publish w p in (w', RAck false (Some pub))
@@ -141,7 +150,7 @@ Definition step (q : quirks) (w : world) (a : action) : world * result :=
       | Some _ => (w, RCreate true 0)
       | None =>
           let id := ckpt_id st + 1 in
-          (MkWorld (MkStore (completed st) (Some (new_pending id ops srs false)) id) (w_files w) (w_lose w), RCreate false id)
+          (MkWorld (MkStore (completed st) (Some (new_pending id ops srs false)) id) (w_files w) (w_lose w) (w_sps w), RCreate false id)
       end
   | ASavepoint ops srs =>
       match pend st with
@@ -151,7 +160,7 @@ Definition step (q : quirks) (w : world) (a : action) : world * result :=
                 RSavepoint false (p_id p) false)
       | None =>
           let id := ckpt_id st + 1 in
-          (MkWorld (MkStore (completed st) (Some (new_pending id ops srs true)) id) (w_files w) (w_lose w), RSavepoint false id true)
+          (MkWorld (MkStore (completed st) (Some (new_pending id ops srs true)) id) (w_files w) (w_lose w) (w_sps w), RSavepoint false id true)
       end
   | AAckOp cid op pl =>
       match pend st with
@@ -172,8 +181,15 @@ Definition step (q : quirks) (w : world) (a : action) : world * result :=
       end
   | ARestart =>
       let st' := load_store (w_files w) in
-      (MkWorld st' (w_files w) false, RRestart (ids_of (w_files w)) (hd_error (completed st')))
-  | ALoseRemoves b => (MkWorld st (w_files w) b, RFault)
+      (MkWorld st' (w_files w) false (w_sps w), RRestart (ids_of (w_files w)) (hd_error (completed st')))
+  | ALoseRemoves b => (MkWorld st (w_files w) b (w_sps w), RFault)
+  | ARestartFrom id =>
+      (* LoadCheckpoint with a savepoint URI: the savepoint overrides whatever checkpoints the storage holds *)
+      match find_snap id (w_sps w) with
+      | Some a => (MkWorld (MkStore [a] None (sn_id a)) (w_files w) false (w_sps w), RRestart (ids_of (w_files w)) (Some a))
+      | None => (MkWorld new_store (w_files w) false (w_sps w), RRestart (ids_of (w_files w)) None)
+      end
+  | AAbort => (with_pending w None, RFault)
   end.
 
 Fixpoint run (q : quirks) (w : world) (acts : list action) : list result :=
@@ -197,13 +213,18 @@ Definition trace (q : quirks) (acts : list action) : list (action * result) := c
    Codes: 11 a published snapshot is not "one entry per operator of the assembly, each carrying the id, and the
    split states of every source runner once"; 12 published before every node of the assembly has a counted ack;
    13 a second checkpoint in progress; 14 an id handed out is not greater than the previous one of this store
-   lifetime; 15 an id handed out is not greater than every id published so far (also across restarts);
-   16 a restart does not resume from the newest published checkpoint. *)
+   lifetime; 15 an id handed out is not greater than every id published so far (also across restarts; after a start from a
+   savepoint: not greater than that savepoint's id and everything published since);
+   16 a restart does not resume from the newest published checkpoint / a start from a savepoint not from it. *)
 Record mpend := MkMPend {
   mp_id : N; mp_ops : list N; mp_srs : list N;
   mp_got_ops : list entry; mp_got_srs : list (N * list N) }.
-Record mon := MkMon { m_pend : option mpend; m_last : N; m_pub : list snapobs }.
-Definition mon_init : mon := MkMon None 0 [].
+(* [m_pub]: the latest publication of every id ever published (what the storage would hold if nothing were ever
+   cleaned up); [m_cur]: the ids new ids have to exceed - everything published since the last start, plus, after a
+   plain restart, every id ever published, or, after a start from a savepoint (an explicit rewind by the
+   operator), that savepoint's id; [m_sps]: the savepoint artifacts written so far, one per id *)
+Record mon := MkMon { m_pend : option mpend; m_last : N; m_pub : list snapobs; m_cur : list N; m_sps : list snapobs }.
+Definition mon_init : mon := MkMon None 0 [] [] [].
 
 Definition mem (x : N) (l : list N) : bool := existsb (N.eqb x) l.
 Definition entry_eqb (a b : entry) : bool :=
@@ -249,14 +270,15 @@ Definition mon_pub (m : mon) (pub : option pubobs) : mon * list N :=
         | None => [11]
         | Some mp => (if content_ok mp s then [] else [11]) ++ (if all_acked mp then [] else [12])
         end in
-      (MkMon None (m_last m) (s :: m_pub m), codes)
+      (MkMon None (m_last m) (s :: without [sn_id s] (m_pub m)) (sn_id s :: m_cur m)
+             (if pb_sp pb then s :: without [sn_id s] (m_sps m) else m_sps m), codes)
   end.
 
 Definition mon_create (m : mon) (id : N) (ops srs : list N) : mon * list N :=
-  (MkMon (Some (MkMPend id ops srs [] [])) id (m_pub m),
+  (MkMon (Some (MkMPend id ops srs [] [])) id (m_pub m) (m_cur m) (m_sps m),
    (match m_pend m with Some _ => [13] | None => [] end)
    ++ (if id <=? m_last m then [14] else [])
-   ++ (if existsb (fun s => id <=? sn_id s) (m_pub m) then [15] else [])).
+   ++ (if existsb (fun i => id <=? i) (m_cur m) then [15] else [])).
 
 Definition mon_step (m : mon) (ev : action * result) : mon * list N :=
   match ev with
@@ -270,7 +292,7 @@ Definition mon_step (m : mon) (ev : action * result) : mon * list N :=
         | Some mp =>
             if (mp_id mp =? cid) && mem op (mp_ops mp) && negb (mem op (map entry_op (mp_got_ops mp)))
             then MkMon (Some (MkMPend (mp_id mp) (mp_ops mp) (mp_srs mp) (mp_got_ops mp ++ [(op, cid, pl)]) (mp_got_srs mp)))
-                       (m_last m) (m_pub m)
+                       (m_last m) (m_pub m) (m_cur m) (m_sps m)
             else m
         | None => m
         end in
@@ -281,18 +303,26 @@ Definition mon_step (m : mon) (ev : action * result) : mon * list N :=
         | Some mp =>
             if negb err && (mp_id mp =? cid) && mem sr (mp_srs mp) && negb (mem sr (map fst (mp_got_srs mp)))
             then MkMon (Some (MkMPend (mp_id mp) (mp_ops mp) (mp_srs mp) (mp_got_ops mp) (mp_got_srs mp ++ [(sr, sts)])))
-                       (m_last m) (m_pub m)
+                       (m_last m) (m_pub m) (m_cur m) (m_sps m)
             else m
         | None => m
         end in
       mon_pub m1 pub
   | (ARestart, RRestart _ cur) =>
-      (MkMon None 0 (m_pub m),
+      (MkMon None 0 (m_pub m) (ids_of (m_pub m)) (m_sps m),
        match max_snap None (m_pub m), cur with
        | None, None => []
        | Some s, Some c => if snap_eqb s c then [] else [16]
        | _, _ => [16]
        end)
+  | (ARestartFrom id, RRestart _ cur) =>
+      (MkMon None 0 (m_pub m) (match find_snap id (m_sps m) with Some s => [sn_id s] | None => [] end) (m_sps m),
+       match find_snap id (m_sps m), cur with
+       | None, None => []
+       | Some s, Some c => if snap_eqb s c then [] else [16]
+       | _, _ => [16]
+       end)
+  | (AAbort, _) => (MkMon None (m_last m) (m_pub m) (m_cur m) (m_sps m), [])
   | _ => (m, [])
   end.
 
